@@ -369,10 +369,16 @@ impl Ctx {
         }
     }
 
-    fn step(&mut self, cur: &Value, comp: &str) -> Lookup {
+    /// Follow `parts` from `cur` by reference (only the value found is cloned: the model must stay cheap on large
+    /// documents, the implementation under test is the one being measured).
+    fn walk(&mut self, cur: &Value, parts: &[String]) -> Lookup {
+        let (comp, rest) = match parts.split_first() {
+            None => return Lookup::Present(cur.clone()),
+            Some(x) => x,
+        };
         match cur {
-            Value::Object(m) => match m.get(comp) {
-                Some(v) => Lookup::Present(v.clone()),
+            Value::Object(m) => match m.get(comp.as_str()) {
+                Some(v) => self.walk(v, rest),
                 None => Lookup::Absent,
             },
             Value::Array(a) => match Self::index_into(a.len(), comp) {
@@ -382,12 +388,12 @@ impl Ctx {
                     if comp.starts_with('-') {
                         self.var_negative += 1;
                     }
-                    Lookup::Present(a[i].clone())
+                    self.walk(&a[i], rest)
                 }
             },
             Value::String(s) => {
-                let chars: Vec<char> = s.chars().collect();
-                match Self::index_into(chars.len(), comp) {
+                let n = s.chars().count();
+                match Self::index_into(n, comp) {
                     Err(r) => Lookup::Unspec(r),
                     Ok(None) => Lookup::Absent,
                     Ok(Some(i)) => {
@@ -395,7 +401,8 @@ impl Ctx {
                             self.var_negative += 1;
                         }
                         self.var_string_index += 1;
-                        Lookup::Present(Value::String(chars[i].to_string()))
+                        let ch = Value::String(s.chars().nth(i).map(|c| c.to_string()).unwrap_or_default());
+                        self.walk(&ch, rest)
                     }
                 }
             }
@@ -416,14 +423,7 @@ impl Ctx {
                 if parts.len() >= 2 {
                     self.var_deep += 1;
                 }
-                let mut cur = data.clone();
-                for comp in &parts {
-                    match self.step(&cur, comp) {
-                        Lookup::Present(v) => cur = v,
-                        other => return other,
-                    }
-                }
-                Lookup::Present(cur)
+                self.walk(data, &parts)
             }
             Value::Number(n) => {
                 // integer-valued JSON integer in i64, else U3
@@ -436,7 +436,7 @@ impl Ctx {
                 };
                 let text = i.to_string();
                 match data {
-                    Value::Object(_) | Value::Array(_) | Value::String(_) => self.step(&data.clone(), &text),
+                    Value::Object(_) | Value::Array(_) | Value::String(_) => self.walk(data, &[text]),
                     _ => Lookup::Absent,
                 }
             }
